@@ -47,8 +47,23 @@ func (e *explorer[T, A]) verify(chain []Op, w *world[T, A], when string) bool {
 	return true
 }
 
+// checkState checks a state twice: on freshly derived views, and on views whose every ancestor (and the view itself)
+// answered the read-only queries first (order-of-queries independence).
 func (e *explorer[T, A]) checkState(chain []Op) {
-	w, err := build(e.be, e.root, chain)
+	for _, obs := range []bool{false, true} {
+		e.obs = obs
+		before := len(e.fails)
+		e.checkStateOnce(chain)
+		e.obs = false
+		if len(e.fails) > before {
+			return
+		}
+		e.st.StateChecks++
+	}
+}
+
+func (e *explorer[T, A]) checkStateOnce(chain []Op) {
+	w, err := build(e.be, e.root, chain, e.obs)
 	if err != nil {
 		e.fail("cannot-rebuild-state", chain, err.Error(), nil)
 		return
@@ -319,7 +334,7 @@ func (e *explorer[T, A]) writeOps(m *mview[T]) []wop[T, A] {
 
 func (e *explorer[T, A]) checkWrites(chain []Op, m0 *mview[T]) bool {
 	for _, op := range e.writeOps(m0) {
-		w, err := build(e.be, e.root, chain)
+		w, err := build(e.be, e.root, chain, e.obs)
 		if err != nil {
 			return false
 		}
@@ -359,7 +374,7 @@ func (e *explorer[T, A]) checkWritePairs(chain []Op, w0 *world[T, A]) {
 			for a := 0; a < ni; a++ {
 				for b := 0; b < nj; b++ {
 					for order := 0; order < 2; order++ {
-						w, err := build(e.be, e.root, chain)
+						w, err := build(e.be, e.root, chain, e.obs)
 						if err != nil {
 							return
 						}
@@ -519,7 +534,7 @@ func (e *explorer[T, A]) checkBulk(chain []Op, w *world[T, A]) bool {
 		}
 		for _, bo := range bops {
 			for si := 0; si < 4; si++ {
-				w2, err := build(e.be, e.root, chain)
+				w2, err := build(e.be, e.root, chain, e.obs)
 				if err != nil {
 					return false
 				}
